@@ -37,7 +37,7 @@ def check(run):
         if 'sample' in r and len(cov['samples']) < 12:
             cov['samples'].append(r['sample'])
     cov['vacuity']['leaves_per_fault_kind'] = per_kind
-    if len(per_kind) < 8:
+    if len(per_kind) < 9:
         raise Inconclusive('not every fault kind was exercised: ' + str(per_kind))
     cov['bounds'] = {'device': 'T1', 'fault_kinds': list(per_kind), 'symbolic': 'the offending byte (all non-header, non-separator values), the undefined mnemonic letter (any undeclared letter, either case), '
                      'the out-of-range numeral (all 3-digit values > 255), the handler error number (all i16)', 'message_shapes': '[F], [v;F], [F;v], [v;F;v], faulty unit absolute or relative to A; with and without a preceding message; followed by the relative message "C;A:Q?"; '
